@@ -92,6 +92,8 @@ class Bounds:
                 break
             e = pn(S, d)
             truth = (taken == "otherwise") if vals == [0] else (bool(taken) if taken != "otherwise" else None)
+            if e[0] == "call" and isinstance(e[1], str) and PRED[0] is not None:
+                e = PRED[0](e) or e  # a local predicate with one straight-line returning path, inlined
             if e[0] == "discr" and taken != "otherwise":
                 # slice.get(i) is Some (or its `?` continues) exactly when i < len(slice)
                 g = e[1]
@@ -187,7 +189,33 @@ class Bounds:
 
 
 LENOF = [None]
+PRED = [None]
 TABLES = [None]
+
+
+def _pred_factory(F):
+    cache = {}
+
+    def get(e):
+        cp, args = e[1], e[2]
+        if cp.startswith(("core::", "alloc::", "std::")):
+            return None
+        if cp not in cache:
+            cache[cp] = None
+            cb = F.fn(cp)
+            if cb is not None and cb.mir and (cb.local_ty(0) or {}).get("s") == "bool":
+                S2 = sym.Sym(cb)
+                try:
+                    ps = S2.paths()
+                except sym.PathLimit:
+                    ps = []
+                if len(ps) == 1 and ps[0].end == "return" and not ps[0].conds and not ps[0].stores and all(norm.WIDENING_FROM.match(c[1]) for c in ps[0].calls):
+                    cache[cp] = pn(S2, ps[0].ret)
+        t = cache[cp]
+        return None if t is None else _subst(t, list(args))
+
+    return get
+
 FALLBACK_ITER = [{}]
 ITER = [None]  # local -> normalised expression that constructed the iterator held in that local
 
@@ -354,6 +382,7 @@ def _table_values_factory(F):
 def discharge(F, sites, envs):
     _target(F)
     TABLES[0] = _table_values_factory(F)
+    PRED[0] = _pred_factory(F)
     by_fn = {}
     for s in sites:
         by_fn.setdefault(s.body.path, []).append(s)
